@@ -47,7 +47,7 @@ func genC13(g GenCtx) interface{} {
 	sc.Writes = rng.Intn(10)
 	// consumption delay: the controller loop / lister / ticker starved by a drawn factor
 	sc.Sim = SimCfg{Strategy: randStrategy(rng, []string{"Create>c.run", "newLister>l.run", "newTicker>t.run", "_lister.list>func", "newCache>c.run"}),
-		NewTimers: rng.Intn(3) == 0, PermuteMaps: true, MaxSteps: 400000, EstSteps: 2000}
+		NewTimers: rng.Intn(3) == 0, PermuteMaps: true, MaxSteps: 120000, EstSteps: 2000}
 	sc.Sim.Strategy.StallPermille = pickInt(rng, 0, 0, 10, 50)
 	sc.Sim.Strategy.StallMaxMs = sc.PeriodMs
 	return sc
